@@ -51,10 +51,15 @@ def concretise(hist, rng):
         tps[-1].append(i)
     rows = []     # (time float, order, onset string, hed)
     spell = {}
+    # every fourth history in tenths of a second: carrier onset + Delay then differs from the onset written in the other rows of
+    # the time point by floating-point noise (0.1 + 0.2 vs 0.3) - they are still one time point
+    small = rng.random() < 0.25
     for j, idxs in enumerate(tps):
         t = (j + 1) * 10
         mode = rng.choice(["one", "one", "rows", "delay", "delay"])
         fmt = rng.choice(["%d", "%d.0", "%d.00"])
+        if small:
+            fmt = "%g"
         texts = []
         for i in idxs:
             spell[i] = _spelling(hist[i]["key"], i)
@@ -68,21 +73,21 @@ def concretise(hist, rng):
                 continue
             texts.append(_marker_text(hist[i]["k"], spell[i], i))
         if delayed:
-            d = rng.choice([3, 5, 2.5])
-            carrier = ", ".join(_marker_text(hist[i]["k"], spell[i], i, delay=d) for i in delayed)
+            d = rng.choice([3, 5, 2.5]) if not small else rng.choice([2, 3, 7])
+            carrier = ", ".join(_marker_text(hist[i]["k"], spell[i], i, delay=(d / 100.0 if small else d)) for i in delayed)
             if rng.random() < 0.5:
                 carrier = "Green, " + carrier
             ct = t - d
-            rows.append((ct, 0, ("%s" % ct) if d == 2.5 else fmt % int(ct), carrier))
+            rows.append((ct, 0, ("%g" % (ct / 100.0)) if small else (("%s" % ct) if d == 2.5 else fmt % int(ct)), carrier))
         if mode == "rows" and len(texts) > 1:
             for n, tx in enumerate(texts):
-                rows.append((t, 1 + n, (fmt if n % 2 == 0 else "%d.0") % t, tx))
+                rows.append((t, 1 + n, ("%g" % (t / 100.0)) if small else (fmt if n % 2 == 0 else "%d.0") % t, tx))
         elif texts:
             if rng.random() < 0.3:
                 texts.insert(rng.randrange(len(texts) + 1), "Square")
-            rows.append((t, 1, fmt % t, ", ".join(texts)))
+            rows.append((t, 1, ("%g" % (t / 100.0)) if small else fmt % t, ", ".join(texts)))
         if rng.random() < 0.2:
-            rows.append((t + 1, 0, fmt % (t + 1), "Circle"))
+            rows.append((t + 1, 0, ("%g" % ((t + 1) / 100.0)) if small else fmt % (t + 1), "Circle"))
     rows.sort(key=lambda r: (r[0], r[1]))
     return [(r[2], r[3]) for r in rows], tps, spell
 
@@ -140,7 +145,7 @@ def execute(case):
     # (issues of a merged time point are labelled with ONE of its rows)
     tprows = {}
     for j, idxs in enumerate(tps):
-        rs = {rowof[i] for i in idxs if i in rowof} | {k + 2 for k, r in enumerate(rows) if float(r[0]) == (j + 1) * 10}
+        rs = {rowof[i] for i in idxs if i in rowof} | {k + 2 for k, r in enumerate(rows) if min(abs(float(r[0]) - (j + 1) * 10), abs(float(r[0]) * 100 - (j + 1) * 10)) < 1e-6}
         for i in idxs:
             tprows[i] = rs
     wrongrow = []
